@@ -89,6 +89,9 @@ func propDerive(t *rapid.T) {
 	loc := common.Location{0, 0}
 	kind := rapid.SampledFrom([]string{"raw-short", "raw-mixed", "raw-long", "hashes", "manifest", "receipts", "transactions"}).Draw(t, "kind")
 	n := genListLen(t)
+	if fuzzMode && n > 140 {
+		n = 100 + n%41
+	}
 	if (kind == "receipts" || kind == "transactions") && n > 140 {
 		n = 100 + n%41 // keeps the 0x7f/0x80 index boundary, bounds the drawing cost
 	}
